@@ -190,7 +190,26 @@ def run(ctx, F):
                   expected="prepare_for_stack_scanning dominates the creation of a further round of ScanMutatorRoots packets",
                   found="prepare sites=%s" % [p.line for p in prep], where=where(f, c.line), key="C11.roots-once|second|" + top.q)
 
+    # ---- C11.no-stw-work-after-resume: the GC is declared finished (and mutators resumed) only when no worker still holds
+    # designated STW packets (PrepareCollector / ReleaseCollector)
+    from .sched import check_has_designated_work
+    check_has_designated_work(ctx, F, "C11.no-stw-work-after-resume")
+
     # ---- C11.block-after-request
+    # whoever makes (or joins) a GC request reports `true`, so that its caller blocks: the result must not depend on
+    # whether this particular call was the one that flipped the request flag
+    rq = "util::heap::gc_trigger::GCTrigger::request"
+    rsites = check_callers(ctx, F, "C11.block-after-request", rq, {
+        "util::heap::gc_trigger::GCTrigger::poll": "allocation-triggered GC", "util::heap::gc_trigger::GCTrigger::handle_user_collection_request": "user-requested GC",
+        "util::heap::gc_trigger::GCTrigger::trigger_internal_collection_request": "internal (concurrent plan) request; returns nothing, the caller does not block"}, min_sites=2)
+    for cs in rsites:
+        f = cs.fn
+        if f.meta.get("output") != "bool":
+            continue
+        rows = [(b, t, g) for b, t, g in ret_table(f) if f.cfg.dominates(cs.bb, b) and b != cs.bb or b == cs.bb]
+        okr = bool(rows) and all(const_arg(t) is True for b, t, g in rows)
+        ctx.judge(okr, "C11.block-after-request", "%s reports true whenever it requested a GC" % short(f.q), expected="every return after request() is the constant true (also when a GC was already pending)",
+                  found=str([show(t)[:60] for b, t, g in rows]), where=where(f, cs.line), key="C11.block-after-request|reports|" + f.q)
     bsites = callers(F, COLL + "block_for_gc")
     ctx.floor("C11.block-after-request", len(bsites), 3, "block_for_gc call sites")
     table = {
